@@ -95,10 +95,24 @@ def rule_prepare_before_join(ctx):
                     "it; the flag is set only after prepare returned and cleared only after a successful join")
     fi = ctx.fn(f"{GC}.ensure_active_group")
     c = ctx.cfg(fi)
-    pt = [t for t in c.nodes if t.kind == "test" and unparse(t.ast) == "self._performed_join_prepare"]
-    pt = ctx.one(pt, "`self._performed_join_prepare` test")
     prep = ctx.one(_awaits(c, "_on_join_prepare"), "await _on_join_prepare")
     rejoin = ctx.one(_awaits(c, "_do_rejoin_group"), "await _do_rejoin_group")
+    # the guard of the revoke step: the innermost test that decides whether prepare runs. It must be a boolean "already performed" flag
+    # of the coordinator (whatever its name) -- any other condition (e.g. comparing generations, which are reset to the same constant
+    # by reset_generation) cannot show that the revoke step precedes every JoinGroup
+    guards = [t for t in c.nodes if t.kind == "test" and (c.dominated_by_branch(t, "F", prep) or c.dominated_by_branch(t, "T", prep))
+              and rejoin in c.reachable([t], exc=False)]
+    guards = [t for t in guards if not any(g is not t and c.dominates(t, g) for g in guards)]
+    flag = None
+    if len(guards) == 1 and isinstance(guards[0].ast, ast.Attribute) and unparse(guards[0].ast.value) == "self" and c.dominated_by_branch(guards[0], "F", prep):
+        flag = guards[0].ast.attr
+    ctx.ob(R, fi, guards[0] if guards else fi.node, flag is not None,
+           f"the revoke step is skipped under `{unparse(guards[0].ast) if guards else '?'}`, which is not a plain `already performed` flag: it cannot be shown that "
+           "the gate / last commit / revoke callback run before every JoinGroup (a rejoin after reset_generation() could skip them)", text="guard-is-performed-flag")
+    if flag is None:
+        return
+    FLAG = flag
+    pt = guards[0]
     ok = c.dominated_by_branch(pt, "F", prep) and c.dominates(pt, rejoin) and rejoin not in c.reachable([m for m, l in pt.succ if l == "F"], avoid=[prep], include_src=True)
     ctx.ob(R, fi, rejoin, ok, "JoinGroup can be sent without the revoke step having run", text="join-after-prepare")
     at = [t for t in c.nodes if t.kind == "test" and unparse(t.ast) == "subscription.active"]
@@ -108,7 +122,7 @@ def rule_prepare_before_join(ctx):
             continue
         ctx.ob(R, fi, r, c.dominates(pt, r), "ensure_active_group can give up (e.g. idle consumer that left the group) before closing the reassignment gate: "
                                              "buffered records of partitions now owned by others would still be delivered", text="exit-after-prepare:" + unparse(r.ast)[:30])
-    st = c.stores(attr="_performed_join_prepare")
+    st = c.stores(attr=FLAG)
     t_true = [s for s in st if const_value(s.stmt.value) is True]
     t_false = [s for s in st if const_value(s.stmt.value) is False]
     ok = len(t_true) == 1 and c.dominates(prep, t_true[0]) and len(t_false) == 1
@@ -116,7 +130,7 @@ def rule_prepare_before_join(ctx):
         sc = [t for t in c.nodes if t.kind == "test" and unparse(t.ast) == "success"]
         ok = bool(sc) and c.dominated_by_branch(sc[0], "T", t_false[0])
     ctx.ob(R, fi, fi.node, ok, "prepare flag is not `set after prepare returned, cleared after a successful join`", text="flag-discipline")
-    for wf, wn, how in ctx.attr_writers("_performed_join_prepare"):
+    for wf, wn, how in ctx.attr_writers(FLAG):
         ctx.ob(R, wf, wn, wf.qualname in (f"{GC}.__init__", f"{GC}.ensure_active_group"), f"{wf.qualname} writes the prepare flag", text="flag-writer")
     ctx.ob(R, fi, prep, unparse(arg_of(prep.ast.value, 0)) == fi.params()[2], "revoke step is not told the previous assignment", text="prepare-arg")
     for cf, cn in ctx.callers("_do_rejoin_group"):
